@@ -15,6 +15,7 @@
 #define SUF ""
 #endif
 #include "common.hpp"
+#include <glm/ext/matrix_integer.hpp>
 #include <glm/gtc/matrix_inverse.hpp>
 #include <glm/gtx/matrix_operation.hpp>
 using namespace symt;
